@@ -225,6 +225,17 @@ func (ip *Interp) GuardList(st *State) []GuardInfo {
 			continue
 		}
 		if ev, ok := act.env[k].(*Bool); ok && ev.K == TriTop {
+			if len(ev.Conj) > 0 {
+				// a conjunction that holds: every member holds (one that fails says nothing
+				// about a single member)
+				if (b.K == TriT) != ev.Neg {
+					for _, c := range ev.Conj {
+						key, neg := GateOf(c)
+						out = append(out, GuardInfo{Key: key, Outcome: !neg, Cmp: c.Cmp})
+					}
+				}
+				continue
+			}
 			key, neg := GateOf(ev)
 			out = append(out, GuardInfo{Key: key, Outcome: (b.K == TriT) != neg, Cmp: ev.Cmp})
 		}
@@ -290,6 +301,15 @@ func (ip *Interp) Guards(st *State) map[string]bool {
 			continue
 		}
 		if ev, ok := act.env[k].(*Bool); ok && ev.K == TriTop {
+			if len(ev.Conj) > 0 {
+				if (b.K == TriT) != ev.Neg {
+					for _, c := range ev.Conj {
+						key, neg := GateOf(c)
+						g[key] = !neg
+					}
+				}
+				continue
+			}
 			key, neg := GateOf(ev)
 			g[key] = (b.K == TriT) != neg
 		}
@@ -966,7 +986,7 @@ func (ip *Interp) runPath(fn *ssa.Function, act *activation, st *State, prev, b 
 					next = b.Succs[0]
 				case cb != nil && cb.K == TriF:
 					next = b.Succs[1]
-				case cb != nil && (cb.Cmp != nil || cb.Key != "") && *forks < 1024:
+				case cb != nil && (cb.Cmp != nil || cb.Key != "" || len(cb.Conj) > 0) && *forks < 1024:
 					*forks++
 					if ip.Hooks.Branch != nil {
 						ip.Hooks.Branch(ip, cb, t)
@@ -1100,7 +1120,7 @@ func (ip *Interp) edgeChain(act *activation, ins map[*ssa.BasicBlock][]edgeIn, l
 					return nil, false
 				}
 				if cb.K == TriTop {
-					if cb.Cmp == nil && cb.Key == "" {
+					if cb.Cmp == nil && cb.Key == "" && len(cb.Conj) == 0 {
 						return nil, false
 					}
 					key, neg := GateOf(cb)
@@ -1250,6 +1270,21 @@ func (ip *Interp) refineEdge(act *activation, s *State, cond ssa.Value, cb *Bool
 		s.refine[cond] = &Bool{K: TriT}
 	} else {
 		s.refine[cond] = &Bool{K: TriF}
+	}
+	if cb != nil && len(cb.Conj) > 0 {
+		if outcome != cb.Neg {
+			for _, c := range cb.Conj {
+				if c.Cmp != nil || c.NilOf != nil {
+					ip.refineEdge(act, s, cond, c, true)
+				}
+			}
+			if outcome {
+				s.refine[cond] = &Bool{K: TriT}
+			} else {
+				s.refine[cond] = &Bool{K: TriF}
+			}
+		}
+		return
 	}
 	if cb != nil && cb.NilOf != nil {
 		if v, ok := cb.NilOf.(ssa.Value); ok {
